@@ -37,8 +37,11 @@ static const int CODES[] = {IDN2_MALLOC, IDN2_NO_CODESET, IDN2_ICONV_FAIL, IDN2_
     IDN2_INVALID_NONTRANSITIONAL, IDN2_ALABEL_ROUNDTRIP_FAILED, -999, 7, 1, -1};
 static const int NCODES = sizeof CODES / sizeof CODES[0];
 
+static std::string mklong(size_t n, const char *unit) { std::string s = "a@"; while (s.size() < n) { s += unit; if (s.size() % 50 > 44) s += '.'; } if (s.back() == '.') s.back() = 'a'; s += ".com"; return s; }
+static const std::string L1 = mklong(1017, "a"), L2 = mklong(1018, "a"), L3 = mklong(1494, "b"), L4 = mklong(4994, "c"), L5 = mklong(1400, "\xD0\xB6");
+static const char *LONG1023 = L1.c_str(), *LONG1024 = L2.c_str(), *LONG1500 = L3.c_str(), *LONG5000 = L4.c_str(), *LONGCYR = L5.c_str();
 static const char *POOL[] = {"\xD0\xB8\xD0\xB2\xD0\xB0\xD0\xBD@\xD0\xBF\xD0\xBE\xD1\x87\xD1\x82\xD0\xB0.\xD1\x80\xD1\x84", "user@example.com", "a@sub.domain.org", "x@\xE5\xBE\xAE\xE5\x8D\x9A.\xE5\xBE\xAE\xE5\x8D\x9A",
-    "bad@\xE2\x99\xA5.de", "a@[1.2.3.4]", "a..b@c.com", "a@b", "a@x.zzunlisted", "a@-b.com", "\"q q\"@mail.ru", "a@[IPv6:::1]", "a@xn--p1ai.xn--p1ai", "a@b.abarth", "noat", "\xFF@b.com"};
+    "bad@\xE2\x99\xA5.de", "a@[1.2.3.4]", "a..b@c.com", "a@b", "a@x.zzunlisted", "a@-b.com", "\"q q\"@mail.ru", "a@[IPv6:::1]", "a@xn--p1ai.xn--p1ai", "a@b.abarth", "noat", "\xFF@b.com", LONG1023, LONG1024, LONG1500, LONG5000, LONGCYR};
 static const int NPOOL = sizeof POOL / sizeof POOL[0];
 
 struct Step { int mode, tld, addr; };
